@@ -325,6 +325,11 @@ func (op *ShellOperator) conversionEventHandler(crdName string, request *v1.Conv
 	}
 	logEntry := utils.EnrichLoggerWithLabels(op.logger, logLabels)
 
+	// The request belongs to the caller (it is compared with the response later):
+	// objects converted by hooks are kept in a private copy.
+	requestCopy := *request
+	request = &requestCopy
+
 	sourceVersions := conversion.ExtractAPIVersions(request.Objects)
 	logEntry.Info("Handle kubernetesCustomResourceConversion event for crd",
 		slog.String("name", crdName),
